@@ -208,6 +208,7 @@ func Run(o *drv.Out) {
 	o.Extra["seconds_block_shapes"] = int(time.Since(t0).Seconds())
 	runMultisig(o, fo)
 	runRLP(o, fo)
+	runRLPTyped(o, fo)
 	runCrossChain(o, fo)
 	runWindow(o, fo)
 	runCodec(o)
